@@ -404,7 +404,10 @@ class StringDataType(ElementaryDataType):
 
     @classmethod
     def _encode(cls, value: str, *args, **kwargs) -> bytes:
-        return cls.len_type.encode(len(value)) + value.encode(cls.encoding)
+        data = value.encode(cls.encoding)
+        if len(data) != len(value) * len("a".encode(cls.encoding)):
+            raise DataError("string contains characters that do not fit the character width of the type")
+        return cls.len_type.encode(len(value)) + data
 
     @classmethod
     def _decode(cls, stream: BytesIO) -> str:
@@ -581,11 +584,10 @@ class STRINGN(StringDataType):
     def encode(cls, value: str, char_size: int = 1) -> bytes:
         try:
             encoding = cls.ENCODINGS[char_size]
-            return (
-                UINT.encode(char_size)
-                + UINT.encode(len(value))
-                + value.encode(encoding)
-            )
+            data = value.encode(encoding)
+            if len(data) != len(value) * char_size:
+                raise DataError("string contains characters that do not fit the character size")
+            return UINT.encode(char_size) + UINT.encode(len(value)) + data
         except Exception as err:
             raise DataError(
                 f"Error encoding {_value_repr(value)} as STRINGN using char. size {char_size}"
